@@ -157,6 +157,9 @@ func init() {
 				{Name: "tick+1", Kind: "tick", D: 1},
 				{Name: fmt.Sprintf("tick+%d", eff), Kind: "tick", D: eff},
 			}}
+			if pc.name == "2s" || pc.name == "unset" {
+				sys.events = append(sys.events, keyEvent{Name: "GET(origin:panic)", Kind: "get", Ans: "panic"})
+			}
 			c.runBFS("bfs-hfp-"+pc.name, sys, depth, nil)
 		}
 		c.RunSched(c07Burst(c, "period-burst3", 3, false, vsched.Bounds{Preempt: pre, Tick: 0, Data: -1, Total: -1}, false))
